@@ -160,21 +160,21 @@ Props/C06.vos Props/C06.vok Props/C06.required_vos: Props/C06.v Gen/GenStruct.vo
 Props/C07.vo Props/C07.glob Props/C07.v.beautified Props/C07.required_vo: Props/C07.v Gen/GenAsync.vo Gen/GenStruct.vo Model/OrderHist.vo Model/Apply.vo Proofs/ApplyProofs.vo Model/Fail.vo Proofs/FailProofs.vo
 Props/C07.vio: Props/C07.v Gen/GenAsync.vio Gen/GenStruct.vio Model/OrderHist.vio Model/Apply.vio Proofs/ApplyProofs.vio Model/Fail.vio Proofs/FailProofs.vio
 Props/C07.vos Props/C07.vok Props/C07.required_vos: Props/C07.v Gen/GenAsync.vos Gen/GenStruct.vos Model/OrderHist.vos Model/Apply.vos Proofs/ApplyProofs.vos Model/Fail.vos Proofs/FailProofs.vos
-Props/C08.vo Props/C08.glob Props/C08.v.beautified Props/C08.required_vo: Props/C08.v Gen/GenAsync.vo Gen/GenStruct.vo Model/OrderHist.vo Model/Apply.vo Proofs/ApplyProofs.vo Model/Fail.vo Proofs/FailProofs.vo Model/FailAux.vo Proofs/FailAuxProofs.vo
-Props/C08.vio: Props/C08.v Gen/GenAsync.vio Gen/GenStruct.vio Model/OrderHist.vio Model/Apply.vio Proofs/ApplyProofs.vio Model/Fail.vio Proofs/FailProofs.vio Model/FailAux.vio Proofs/FailAuxProofs.vio
-Props/C08.vos Props/C08.vok Props/C08.required_vos: Props/C08.v Gen/GenAsync.vos Gen/GenStruct.vos Model/OrderHist.vos Model/Apply.vos Proofs/ApplyProofs.vos Model/Fail.vos Proofs/FailProofs.vos Model/FailAux.vos Proofs/FailAuxProofs.vos
+Props/C08.vo Props/C08.glob Props/C08.v.beautified Props/C08.required_vo: Props/C08.v Gen/GenAsync.vo Gen/GenStruct.vo Model/OrderHist.vo Model/Apply.vo Proofs/ApplyProofs.vo Model/Fail.vo Proofs/FailProofs.vo Model/FailAux.vo Proofs/FailAuxProofs.vo Gen/GenParams.vo Model/Hist.vo Proofs/HistProofs.vo
+Props/C08.vio: Props/C08.v Gen/GenAsync.vio Gen/GenStruct.vio Model/OrderHist.vio Model/Apply.vio Proofs/ApplyProofs.vio Model/Fail.vio Proofs/FailProofs.vio Model/FailAux.vio Proofs/FailAuxProofs.vio Gen/GenParams.vio Model/Hist.vio Proofs/HistProofs.vio
+Props/C08.vos Props/C08.vok Props/C08.required_vos: Props/C08.v Gen/GenAsync.vos Gen/GenStruct.vos Model/OrderHist.vos Model/Apply.vos Proofs/ApplyProofs.vos Model/Fail.vos Proofs/FailProofs.vos Model/FailAux.vos Proofs/FailAuxProofs.vos Gen/GenParams.vos Model/Hist.vos Proofs/HistProofs.vos
 Props/C09.vo Props/C09.glob Props/C09.v.beautified Props/C09.required_vo: Props/C09.v Lib/NumOps.vo Gen/GenAsync.vo Gen/GenStruct.vo Model/Apply.vo Proofs/ApplyProofs.vo
 Props/C09.vio: Props/C09.v Lib/NumOps.vio Gen/GenAsync.vio Gen/GenStruct.vio Model/Apply.vio Proofs/ApplyProofs.vio
 Props/C09.vos Props/C09.vok Props/C09.required_vos: Props/C09.v Lib/NumOps.vos Gen/GenAsync.vos Gen/GenStruct.vos Model/Apply.vos Proofs/ApplyProofs.vos
 Props/C10.vo Props/C10.glob Props/C10.v.beautified Props/C10.required_vo: Props/C10.v Gen/GenStruct.vo Gen/GenParams.vo Model/OrderHist.vo Model/Hist.vo Proofs/HistProofs.vo
 Props/C10.vio: Props/C10.v Gen/GenStruct.vio Gen/GenParams.vio Model/OrderHist.vio Model/Hist.vio Proofs/HistProofs.vio
 Props/C10.vos Props/C10.vok Props/C10.required_vos: Props/C10.v Gen/GenStruct.vos Gen/GenParams.vos Model/OrderHist.vos Model/Hist.vos Proofs/HistProofs.vos
-Props/C11.vo Props/C11.glob Props/C11.v.beautified Props/C11.required_vo: Props/C11.v Lib/NumOps.vo Gen/GenProto.vo Model/Core.vo Spec/ProtoSpec.vo Proofs/CoreInit.vo Gen/GenStruct.vo Gen/GenParams.vo Model/OrderHist.vo Model/Hist.vo Proofs/HistProofs.vo
-Props/C11.vio: Props/C11.v Lib/NumOps.vio Gen/GenProto.vio Model/Core.vio Spec/ProtoSpec.vio Proofs/CoreInit.vio Gen/GenStruct.vio Gen/GenParams.vio Model/OrderHist.vio Model/Hist.vio Proofs/HistProofs.vio
-Props/C11.vos Props/C11.vok Props/C11.required_vos: Props/C11.v Lib/NumOps.vos Gen/GenProto.vos Model/Core.vos Spec/ProtoSpec.vos Proofs/CoreInit.vos Gen/GenStruct.vos Gen/GenParams.vos Model/OrderHist.vos Model/Hist.vos Proofs/HistProofs.vos
-Props/C12.vo Props/C12.glob Props/C12.v.beautified Props/C12.required_vo: Props/C12.v Lib/NumOps.vo Gen/GenProto.vo Gen/GenStruct.vo Model/Core.vo Spec/ProtoSpec.vo Proofs/CoreCons.vo Proofs/CoreResult.vo Proofs/CoreLife.vo Model/Death.vo Proofs/DeathProofs.vo Gen/GenParams.vo Model/OrderHist.vo Model/Hist.vo Proofs/HistProofs.vo
-Props/C12.vio: Props/C12.v Lib/NumOps.vio Gen/GenProto.vio Gen/GenStruct.vio Model/Core.vio Spec/ProtoSpec.vio Proofs/CoreCons.vio Proofs/CoreResult.vio Proofs/CoreLife.vio Model/Death.vio Proofs/DeathProofs.vio Gen/GenParams.vio Model/OrderHist.vio Model/Hist.vio Proofs/HistProofs.vio
-Props/C12.vos Props/C12.vok Props/C12.required_vos: Props/C12.v Lib/NumOps.vos Gen/GenProto.vos Gen/GenStruct.vos Model/Core.vos Spec/ProtoSpec.vos Proofs/CoreCons.vos Proofs/CoreResult.vos Proofs/CoreLife.vos Model/Death.vos Proofs/DeathProofs.vos Gen/GenParams.vos Model/OrderHist.vos Model/Hist.vos Proofs/HistProofs.vos
+Props/C11.vo Props/C11.glob Props/C11.v.beautified Props/C11.required_vo: Props/C11.v Lib/NumOps.vo Gen/GenProto.vo Model/Core.vo Spec/ProtoSpec.vo Proofs/CoreInit.vo Gen/GenStruct.vo Gen/GenParams.vo Model/OrderHist.vo Model/Hist.vo Proofs/HistProofs.vo Gen/GenAsync.vo Model/FailAux.vo Proofs/FailAuxProofs.vo
+Props/C11.vio: Props/C11.v Lib/NumOps.vio Gen/GenProto.vio Model/Core.vio Spec/ProtoSpec.vio Proofs/CoreInit.vio Gen/GenStruct.vio Gen/GenParams.vio Model/OrderHist.vio Model/Hist.vio Proofs/HistProofs.vio Gen/GenAsync.vio Model/FailAux.vio Proofs/FailAuxProofs.vio
+Props/C11.vos Props/C11.vok Props/C11.required_vos: Props/C11.v Lib/NumOps.vos Gen/GenProto.vos Model/Core.vos Spec/ProtoSpec.vos Proofs/CoreInit.vos Gen/GenStruct.vos Gen/GenParams.vos Model/OrderHist.vos Model/Hist.vos Proofs/HistProofs.vos Gen/GenAsync.vos Model/FailAux.vos Proofs/FailAuxProofs.vos
+Props/C12.vo Props/C12.glob Props/C12.v.beautified Props/C12.required_vo: Props/C12.v Lib/NumOps.vo Gen/GenProto.vo Gen/GenStruct.vo Model/Core.vo Spec/ProtoSpec.vo Proofs/CoreCons.vo Proofs/CoreResult.vo Proofs/CoreLife.vo Model/Death.vo Proofs/DeathProofs.vo Gen/GenParams.vo Model/OrderHist.vo Model/Hist.vo Proofs/HistProofs.vo Gen/GenAsync.vo Model/FailAux.vo Proofs/FailAuxProofs.vo
+Props/C12.vio: Props/C12.v Lib/NumOps.vio Gen/GenProto.vio Gen/GenStruct.vio Model/Core.vio Spec/ProtoSpec.vio Proofs/CoreCons.vio Proofs/CoreResult.vio Proofs/CoreLife.vio Model/Death.vio Proofs/DeathProofs.vio Gen/GenParams.vio Model/OrderHist.vio Model/Hist.vio Proofs/HistProofs.vio Gen/GenAsync.vio Model/FailAux.vio Proofs/FailAuxProofs.vio
+Props/C12.vos Props/C12.vok Props/C12.required_vos: Props/C12.v Lib/NumOps.vos Gen/GenProto.vos Gen/GenStruct.vos Model/Core.vos Spec/ProtoSpec.vos Proofs/CoreCons.vos Proofs/CoreResult.vos Proofs/CoreLife.vos Model/Death.vos Proofs/DeathProofs.vos Gen/GenParams.vos Model/OrderHist.vos Model/Hist.vos Proofs/HistProofs.vos Gen/GenAsync.vos Model/FailAux.vos Proofs/FailAuxProofs.vos
 Props/C13.vo Props/C13.glob Props/C13.v.beautified Props/C13.required_vo: Props/C13.v Lib/NumOps.vo Gen/GenProto.vo Gen/GenArgs.vo Gen/GenStruct.vo Model/Core.vo Spec/ProtoSpec.vo Proofs/CoreIdent.vo Proofs/CoreLife.vo Gen/GenParams.vo Model/OrderHist.vo Model/Hist.vo Proofs/HistProofs.vo
 Props/C13.vio: Props/C13.v Lib/NumOps.vio Gen/GenProto.vio Gen/GenArgs.vio Gen/GenStruct.vio Model/Core.vio Spec/ProtoSpec.vio Proofs/CoreIdent.vio Proofs/CoreLife.vio Gen/GenParams.vio Model/OrderHist.vio Model/Hist.vio Proofs/HistProofs.vio
 Props/C13.vos Props/C13.vok Props/C13.required_vos: Props/C13.v Lib/NumOps.vos Gen/GenProto.vos Gen/GenArgs.vos Gen/GenStruct.vos Model/Core.vos Spec/ProtoSpec.vos Proofs/CoreIdent.vos Proofs/CoreLife.vos Gen/GenParams.vos Model/OrderHist.vos Model/Hist.vos Proofs/HistProofs.vos
